@@ -29,7 +29,10 @@ DEEP = [("3000 nested parentheses", "(" * 3000 + "a" + ")" * 3000), ("3000 chain
         ("regex body with a bad repeat", "name:(/ab{2,1}c/ AND foo)"), ("regex body with a bad escape", "/\\p{x}(?P<n>/"),
         ("phrase with a backslash before a line break", "\"foo\\\nbar\""), ("regex with a backslash before a line break", "/ab+\\\nc/"),
         ("range bound with a backslash before a line break", "f:[a TO \"z\\\n\"]"), ("format directives", "%s %(x)s {0} {x} {} %d"),
-        ("format directives in a phrase and a field", "{f}:\"%s {0}\"^2 {"), ("NUL and a lone surrogate", "a\x00b \ud800 c"), ("malformed numerals", "foo~1.2.3 \"a b\"~1.5 c^. f:(x y)^2^1..5")]
+        ("format directives in a phrase and a field", "{f}:\"%s {0}\"^2 {"), ("NUL and a lone surrogate", "a\x00b \ud800 c"), ("malformed numerals", "foo~1.2.3 \"a b\"~1.5 c^. f:(x y)^2^1..5"),
+        # an error to report about a very deep operand
+        ("3000 nested parentheses with a malformed boost", "(" * 3000 + "a b" + ")" * 3000 + "^1.2.3"), ("3000 chained NOT with a malformed fuzziness", "NOT " * 3000 + "a~1.2.3"),
+        ("3000 nested field groups with a fractional proximity", "f:(" * 3000 + "\"a b\"~1.5" + ")" * 3000), ("a byte order mark first", "\ufeffa b"), ("blanks then a byte order mark", "   \ufeffa b")]
 
 
 def dump(t):
